@@ -814,7 +814,8 @@ def _install_nan():
     CONSTS['numpy.nan'] = NanRef('singleton')
     CONSTS['numpy.NaN'] = CONSTS['numpy.nan']
     CONSTS['math.nan'] = CONSTS['numpy.nan']
-    del CONSTS['numpy.inf']
+    CONSTS['numpy.inf'] = z3.Real('K_inf')       # opaque positive constant, see Ctx.inf
+    CONSTS['math.inf'] = CONSTS['numpy.inf']
 
 
 _install_nan()
